@@ -45,6 +45,8 @@ for m in %(pre)r:
 import pysnark.runtime as rt
 report["name"] = rt.backend_name
 report["module"] = getattr(rt.backend, "__name__", None)
+_lb = sys.modules.get("pysnark.libsnark.backend")
+report["use_groth"] = getattr(_lb, "use_groth", None)
 report["interface_missing"] = [f for f in %(iface)r if not callable(getattr(rt.backend, f, None))]
 try:
     report["modulus"] = rt.backend.get_modulus()
@@ -68,6 +70,7 @@ json.dump(report, open("report.json", "w"))
 def expected(pre, envname, loadable):
     """the three-stage rule. returns dict(kind='select', names={...}) | dict(kind='fail') , plus diag flag"""
     pre_names = [n for n, m in REGISTRY if m in pre]
+    loadable = {k: (v is True) for k, v in loadable.items()}
     pre_loaded = []
     for n in pre_names:
         if NEEDS[n] is None or loadable[NEEDS[n]]:
@@ -117,13 +120,17 @@ def configurations(tier):
             for env in envs:
                 for ld in loads:
                     out.append((pre, env, ld))
+    # an installed but incompatible libsnark (its import raises AttributeError): auto-detection moves on, naming it fails loudly
+    for env in (None, "nosuchbackend", "libsnark", "libsnarkgg", "snarkjs"):
+        for fb in (True, False):
+            out.append(((), env, dict(flatbuffers=fb, qaptools=False, libsnark="broken")))
     # IPython installed but not running must change nothing (a few stage-3 / stage-2 configurations)
     for env in (None, "nosuchbackend", "snarkjs"):
         for ldb in (dict(flatbuffers=True, qaptools=False, libsnark=False), dict(flatbuffers=False, qaptools=True, libsnark=False)):
             out.append(((), env, dict(ldb, ipython=True)))
     seen, uniq = set(), []
     for pre, env, ld in out:
-        k = (pre, env, tuple(sorted(ld.items())))
+        k = (pre, env, tuple(sorted((a, str(b)) for a, b in ld.items())))
         if k not in seen:
             seen.add(k)
             uniq.append((pre, env, ld))
@@ -151,7 +158,9 @@ def main():
 
 
 def run_probe(pre, env, ld, wd, autoprove_off=False):
-    shims = [s for s in ("flatbuffers", "libsnark") if ld[s]]
+    shims = [s for s in ("flatbuffers", "libsnark") if ld[s] is True]
+    if ld.get("libsnark") == "broken":
+        shims.append("libsnark_broken")   # installed but incompatible: its import raises AttributeError
     if ld.get("ipython"):
         shims.append("ipython")        # IPython importable, but the script is a plain script (no get_ipython in builtins)
     extra = {}
@@ -180,7 +189,9 @@ def worker(job):
             shutil.rmtree(wd, ignore_errors=True)
         exp = expected(pre, env, ld)
         envcls = "unset" if env is None else ("known" if env in NAME2MOD else "unknown")
-        ldcls = "".join(k[0] for k in sorted(ld) if ld[k] and k != "ipython") or "none"
+        ldcls = "".join(k[0] for k in sorted(ld) if ld[k] is True and k != "ipython") or "none"
+        if ld.get("libsnark") == "broken":
+            ldcls += "+libsnark-broken"
         if ld.get("ipython"):
             ldcls += "+ipython-installed"
         cell = "stage%d|env-%s|load-%s|pre%d" % (exp["stage"], envcls, ldcls, len(pre))
@@ -206,6 +217,8 @@ def worker(job):
             R.violation("name-and-module-disagree", "backend_name %r but constraints go to module %r" % (name, module), **det)
         elif FIELD[name] is not None and rep["modulus"] != FIELD[name]:
             R.violation("name-and-field-disagree", "backend_name %r but the module works modulo %s" % (name, rep["modulus"]), **det)
+        if name in ("libsnark", "libsnarkgg") and rep.get("use_groth") is not (name == "libsnarkgg"):
+            R.violation("name-and-proof-system-disagree", "backend_name %r but the libsnark backend's use_groth flag is %r" % (name, rep.get("use_groth")), **det)
         if rep["interface_missing"]:
             R.violation("interface-incomplete", "selected backend lacks %s" % rep["interface_missing"], **det)
         if rep["smoke"] != "ok":
